@@ -1,5 +1,5 @@
 # replay of a bounded stand-in violation (C16): re-run native/c16_states.py
 import sys
-print('bosonic n=3 pure=False gaussian: reduced_dm([1, 2]) has shape (8, 8, 8, 8, 8, 8), expected two indices per mode')
+print('n=2 pure=False gaussian: quad_expectation(1,0.0) = [-0.02052, 0.6752] on fock, [0.52073, 0.75012] on gaussian')
 print('REPLAY-VIOLATION')
 sys.exit(1)
